@@ -20,17 +20,17 @@ use crate::{
 };
 
 #[derive(Clone, Debug)]
-enum F {
+pub enum F {
     Prefix(Vec<u8>),
     Exact(Vec<u8>),
 }
 #[derive(Clone, Debug)]
-struct P {
-    nothing_except: bool,
-    filters: Vec<F>,
+pub struct P {
+    pub nothing_except: bool,
+    pub filters: Vec<F>,
 }
 
-fn spec_matches(p: &P, k: &[u8]) -> bool {
+pub fn spec_matches(p: &P, k: &[u8]) -> bool {
     let any = p.filters.iter().any(|f| match f {
         F::Prefix(x) => is_prefix(x, k),
         F::Exact(x) => x == k,
@@ -38,7 +38,7 @@ fn spec_matches(p: &P, k: &[u8]) -> bool {
     if p.nothing_except { any } else { !any }
 }
 
-fn real(p: &P) -> DownloadPolicy {
+pub fn real(p: &P) -> DownloadPolicy {
     let f = p
         .filters
         .iter()
@@ -50,7 +50,7 @@ fn real(p: &P) -> DownloadPolicy {
     if p.nothing_except { DownloadPolicy::NothingExcept(f) } else { DownloadPolicy::EverythingExcept(f) }
 }
 
-fn gen_policy(rng: &mut Rng) -> P {
+pub fn gen_policy(rng: &mut Rng) -> P {
     let n = rng.below(6);
     let mut keys = vec![];
     let filters = (0..n)
